@@ -1102,7 +1102,7 @@ def run(ck):
             sampler_case(ck, d, rng)
         for _ in range(ck.pick(25, 200)):
             rvs_history_case(ck, rng.randint(0, 2 ** 20))
-        for _ in range(ck.pick(2, 10)):
+        for _ in range(ck.pick(2, 7)):
             law_case(ck, d, rng.randint(0, 2 ** 20), n)
         for _ in range(ck.pick(1, 3)):
             small_calls_case(ck, rng.randint(0, 2 ** 20), ck.pick(400, 800))
